@@ -247,10 +247,8 @@ Definition tail_decoded (v : pvalue) (fill : nat) : pvalue :=
 
 (* a section in canonical form: layout = fx ++ tail, values = vfx ++ tail value,
    section_length (when present) first *)
-Record canon (c : sconfig) (vs : list pvalue) (fill : nat) := {
-  cn_fx : list param;
-  cn_tail : option (param * pvalue);
-  cn_vfx : list pvalue;
+Record canon (c : sconfig) (vs : list pvalue) (fill : nat)
+    (cn_fx : list param) (cn_tail : option (param * pvalue)) (cn_vfx : list pvalue) : Prop := {
   cn_ps : s_params c = cn_fx ++ match cn_tail with Some (t, _) => [t] | None => [] end;
   cn_vs : vs = cn_vfx ++ match cn_tail with Some (_, v) => [v] | None => [] end;
   cn_fit : fits_fixed cn_fx cn_vfx;
@@ -317,21 +315,21 @@ Qed.
 (* decoding a canonical section followed by [fill] zero bits and anything:
    the decoder returns the values (tail bin: with the fill), consumes exactly
    the section, and leaves the rest *)
-Lemma decode_canonical c vs fill (K : canon c vs fill) body :
+Lemma decode_canonical c vs fill fx tail vfx (K : canon c vs fill fx tail vfx) body :
   (forall o, exists pr, write_params (s_params c) vs [] o = Ok (o ++ body, pr)) ->
   (has_param Nsection_length (s_params c) = true ->
      exists sl, nth_error vs 0 = Some (PUint sl) /\ (8 * sl = Z.of_nat (length body + fill))%Z) ->
-  (match cn_tail c vs fill K with Some (t, _) => p_type t = TDescs -> (fill < 16)%nat | None => True end) ->
+  (match tail with Some (t, _) => p_type t = TDescs -> (fill < 16)%nat | None => True end) ->
   forall props_d t,
-  (match cn_tail c vs fill K with
-   | Some (tp, PData b) => forall rest, decode_data (add_props (cn_fx c vs fill K) (cn_vfx c vs fill K) props_d) (b ++ rest) = Ok (b, rest)
+  (match tail with
+   | Some (tp, PData b) => forall rest, decode_data (add_props fx vfx props_d) (b ++ rest) = Ok (b, rest)
    | _ => True end) ->
-  let vs'' := cn_vfx c vs fill K ++ match cn_tail c vs fill K with Some (_, v) => [tail_decoded v fill] | None => [] end in
+  let vs'' := vfx ++ match tail with Some (_, v) => [tail_decoded v fill] | None => [] end in
   decode_section decode_data c props_d (body ++ zeros fill ++ t) =
   Ok (mkSec (s_index c) (s_params c) (length body + fill) (combine (map p_name (s_params c)) vs''),
       add_props (s_params c) vs'' props_d, t).
 Proof.
-  destruct K as [fx tail vfx Hps Hvs Hfit Htail Hfirst Hnolen]. cbn [cn_tail cn_fx cn_vfx].
+  destruct K as [Hps Hvs Hfit Htail Hfirst Hnolen].
   intros Hbody Hlen Hdesc props_d t Hdata. cbv zeta.
   destruct (fixed_params_roundtrip fx vfx Hfit) as (efx & Hwfx & Lfx & Hrfx).
   pose proof (fits_fixed_length _ _ Hfit) as Hlfx.
@@ -476,7 +474,7 @@ Lemma encode_section_canonical ign c vs props o o' props' sec :
     (forall o2, exists pr, write_params (s_params c) vs' [] o2 = Ok (o2 ++ body', pr)) /\
     sec_nbits sec = (length body' + fill)%nat /\ sec_index sec = s_index c /\ sec_params sec = s_params c /\
     props' = add_props (s_params c) vs props /\
-    add_props (s_params c) vs' props = add_props (s_params c) vs props /\
+    (forall pr, add_props (s_params c) vs' pr = add_props (s_params c) vs pr) /\
     (has_param Nsection_length (s_params c) = true ->
        exists sl, nth_error vs' 0 = Some (PUint sl) /\ (8 * sl = Z.of_nat (length body' + fill))%Z) /\
     (has_param Nsection_length (s_params c) = false ->
@@ -541,7 +539,7 @@ Proof.
       split.
       { rewrite Hprops. unfold add_prop at 1. rewrite Hnp. exact Eprops1. }
       split.
-      { rewrite Hps. cbn [add_props]. unfold add_prop. rewrite Hnp. reflexivity. }
+      { intros pr0. rewrite Hps. cbn [add_props]. unfold add_prop. rewrite Hnp. reflexivity. }
       split.
       { intros _. exists L. split; [reflexivity|]. rewrite Llen. unfold L. lia. }
       intros Hc. congruence.
@@ -562,6 +560,201 @@ Proof.
     split; [rewrite Hn, !app_length, length_zeros; lia|].
     split; [exact Hi|]. split; [exact Hp|]. split; [exact Eprops1|]. split; [reflexivity|].
     split; [intros Hc; congruence|]. intros _. exists edition. split; [exact He|]. lia.
+Qed.
+
+
+(* ------------------------------------------------------------------------ *)
+(* a computable "the values fit the layout" and the canonical decomposition   *)
+(* ------------------------------------------------------------------------ *)
+Fixpoint fits_layout (seen : list param) (ps : list param) (vs : list pvalue) : bool :=
+  match ps, vs with
+  | [], [] => true
+  | p :: ps', v :: vs' =>
+      if fixed_param p then fit_fixed p v && fits_layout (seen ++ [p]) ps' vs'
+      else match ps', vs' with
+           | [], [] => tail_param_ok seen p && tail_fit p v     (* only as the last one *)
+           | _, _ => false
+           end
+  | _, _ => false
+  end.
+
+Lemma fits_layout_parts : forall ps vs seen, fits_layout seen ps vs = true ->
+  exists fx vfx (tail : option (param * pvalue)),
+    ps = fx ++ match tail with Some (t, _) => [t] | None => [] end /\
+    vs = vfx ++ match tail with Some (_, v) => [v] | None => [] end /\
+    fits_fixed fx vfx /\
+    match tail with
+    | Some (t, v) => tail_param_ok (seen ++ fx) t = true /\ tail_fit t v = true /\ fixed_param t = false
+    | None => True end.
+Proof.
+  induction ps as [|p ps IH]; intros vs seen H; destruct vs as [|v vs]; try discriminate.
+  - exists [], [], None. repeat split; constructor.
+  - cbn [fits_layout] in H. destruct (fixed_param p) eqn:Ep.
+    + apply andb_true_iff in H as [Hf H]. destruct (IH _ _ H) as (fx & vfx & tail & -> & -> & Hfit & Ht).
+      exists (p :: fx), (v :: vfx), tail. split; [reflexivity|]. split; [reflexivity|].
+      split; [constructor; auto|]. destruct tail as [[t tv]|]; [|exact I].
+      rewrite <- app_assoc in Ht. exact Ht.
+    + destruct ps; [|discriminate]. destruct vs; [|discriminate]. apply andb_true_iff in H as [H1 H2].
+      exists [], [], (Some (p, v)). split; [reflexivity|]. split; [reflexivity|]. split; [constructor|].
+      rewrite app_nil_r. auto.
+Qed.
+
+(* configuration-level conditions (all bundled definitions satisfy them) *)
+Definition config_rt_ok (c : sconfig) : bool :=
+  sl_first (s_params c) &&
+  match find_param Nsection_length (s_params c) with
+  | Some pl => negb (p_prop pl)
+  | None => forallb fixed_param (s_params c) && (sum_nbits (s_params c) mod 16 =? 0)%Z
+  end.
+
+Lemma definitions_rt_ok : forallb config_rt_ok definitions = true.
+Proof. vm_compute. reflexivity. Qed.
+
+Lemma sum_nbits_app a b : sum_nbits (a ++ b) = (sum_nbits a + sum_nbits b)%Z.
+Proof. induction a as [|p a IH]; cbn [app sum_nbits]; lia. Qed.
+
+Lemma forallb_fixed_no_tail fx t : forallb fixed_param (fx ++ [t]) = true -> fixed_param t = true.
+Proof. rewrite forallb_app. cbn [forallb]. intros H. apply andb_true_iff in H as [_ H]. apply andb_true_iff in H as [H _]. exact H. Qed.
+
+(* from "fits" and the configuration conditions to the canonical record *)
+Lemma make_canon c vs fill :
+  config_rt_ok c = true -> fits_layout [] (s_params c) vs = true ->
+  (has_param Nsection_length (s_params c) = false -> fill = 0%nat) ->
+  exists fx tail vfx, canon c vs fill fx tail vfx.
+Proof.
+  intros Hc Hf Hfill. unfold config_rt_ok in Hc. apply andb_true_iff in Hc as [Hfirst Hc].
+  destruct (fits_layout_parts _ _ _ Hf) as (fx & vfx & tail & Hps & Hvs & Hfit & Ht). cbn [app] in Ht.
+  exists fx, tail, vfx. constructor; auto.
+  destruct tail as [[t tv]|]; [|exact I]. destruct Ht as (H1 & H2 & H3). split; [exact H1|]. split; [exact H2|].
+  destruct (find_param Nsection_length (s_params c)) as [pl|] eqn:E.
+  - apply (find_param_in _ _ _ E).
+  - exfalso. apply andb_true_iff in Hc as [Hall _]. rewrite Hps in Hall.
+    apply forallb_fixed_no_tail in Hall. congruence.
+Qed.
+
+
+(* ------------------------------------------------------------------------ *)
+(* one section: encode then decode                                           *)
+(* ------------------------------------------------------------------------ *)
+(* a decoded value is the encoded one; a to-the-end-of-section bit string comes
+   back with the section's zero fill appended *)
+Definition value_matches (ve vd : pvalue) : Prop :=
+  vd = ve \/ exists b k, ve = PBin b /\ vd = PBin (b ++ zeros k).
+
+Definition sec_matches (se sd : section) : Prop :=
+  sec_index sd = sec_index se /\ sec_params sd = sec_params se /\ sec_nbits sd = sec_nbits se /\
+  Forall2 (fun x y => fst y = fst x /\ value_matches (snd x) (snd y)) (sec_values se) (sec_values sd).
+
+(* hypotheses on an encoded section, phrased on the section itself *)
+Definition desc_fill_ok (s : section) : Prop :=
+  forall fx t vfx ids, sec_params s = fx ++ [t] -> p_type t = TDescs ->
+    map snd (sec_values s) = vfx ++ [PDescs ids] ->
+    (Z.of_nat (sec_nbits s) < sum_nbits fx + 16 * Z.of_nat (length ids) + 16)%Z.
+
+Definition data_ok_sec (props_d : list (pname * pvalue)) (s : section) : Prop :=
+  forall fx t vfx b, sec_params s = fx ++ [t] -> p_type t = TData ->
+    map snd (sec_values s) = vfx ++ [PData b] ->
+    forall rest, decode_data (add_props fx vfx props_d) (b ++ rest) = Ok (b, rest).
+
+Lemma map_snd_combine {A B} (a : list A) : forall (b : list B), length a = length b -> map snd (combine a b) = b.
+Proof.
+  induction a as [|x a IH]; intros b Hl; destruct b as [|y b]; try discriminate; [reflexivity|].
+  cbn [combine map snd]. f_equal. apply IH. cbn in Hl. lia.
+Qed.
+
+Lemma pad_bits_mod16 e n : (0 <= n)%Z -> (n mod 16 = 0)%Z -> pad_bits e n = 0%Z.
+Proof.
+  intros Hn Hm. pose proof (pad_spec e n Hn) as [H0 H]. cbv zeta in H.
+  assert (Hmin := pad_bits_minimal e n 0 Hn ltac:(lia)).
+  destruct (e <=? 3)%Z; [apply Z.le_antisymm; [apply Hmin; rewrite Z.add_0_r; exact Hm|exact H0]|].
+  apply Z.le_antisymm; [apply Hmin; rewrite Z.add_0_r; lia|exact H0].
+Qed.
+
+Lemma add_props_tail_decoded fx vfx t tv fill pr :
+  length fx = length vfx -> tail_param_ok fx t = true -> tail_fit t tv = true ->
+  add_props (fx ++ [t]) (vfx ++ [tail_decoded tv fill]) pr = add_props (fx ++ [t]) (vfx ++ [tv]) pr.
+Proof.
+  intros Hl Hp Hf. rewrite !add_props_app by exact Hl. cbn [add_props]. unfold add_prop.
+  unfold tail_fit in Hf. unfold tail_param_ok in Hp. apply andb_true_iff in Hp as [_ Hp].
+  destruct (p_type t); try discriminate; destruct tv; try discriminate; try reflexivity.
+  cbn [tail_decoded]. apply negb_true_iff in Hp. rewrite Hp. reflexivity.
+Qed.
+
+Lemma section_roundtrip ign c vs props_e o o' props_e' sec :
+  config_rt_ok c = true -> length (s_params c) = length vs ->
+  encode_section ign c vs props_e o = Ok (o', props_e', sec) ->
+  fits_layout [] (sec_params sec) (map snd (sec_values sec)) = true ->
+  desc_fill_ok sec ->
+  exists e, o' = o ++ e /\ props_e' = add_props (s_params c) vs props_e /\
+    length e = sec_nbits sec /\
+    forall props_d t, data_ok_sec props_d sec ->
+      exists sec_d, decode_section decode_data c props_d (e ++ t) =
+                      Ok (sec_d, add_props (s_params c) vs props_d, t) /\
+                    sec_matches sec sec_d.
+Proof.
+  intros Hc Hlen Henc Hfit Hdf.
+  pose proof Hc as Hc'. unfold config_rt_ok in Hc'. apply andb_true_iff in Hc' as [Hfirst Hc2].
+  assert (Hnp : forall pl, find_param Nsection_length (s_params c) = Some pl -> p_prop pl = false).
+  { intros pl E. rewrite E in Hc2. apply negb_true_iff in Hc2. exact Hc2. }
+  destruct (encode_section_canonical _ _ _ _ _ _ _ _ Hfirst Hlen Hnp Henc)
+    as (vs' & body' & fill & Hvals & Hlen' & -> & Hbody & Hn & Hidx & Hpar & Hprops & Hap & Hsl & Hnolen).
+  assert (Hvs' : map snd (sec_values sec) = vs').
+  { rewrite Hvals. apply map_snd_combine. rewrite map_length. congruence. }
+  rewrite Hpar, Hvs' in Hfit.
+  (* fill = 0 for a section without a length field *)
+  assert (Hfill0 : has_param Nsection_length (s_params c) = false -> fill = 0%nat).
+  { intros Hno. destruct (Hnolen Hno) as (ed & _ & Hfill).
+    assert (E : find_param Nsection_length (s_params c) = None) by (apply find_param_has, Hno).
+    rewrite E in Hc2. apply andb_true_iff in Hc2 as [Hall H16]. apply Z.eqb_eq in H16.
+    destruct (fits_layout_parts _ _ _ Hfit) as (fx & vfx & tail & Hps & Hvs & Hff & Ht).
+    destruct tail as [[t tv]|].
+    - exfalso. destruct Ht as (_ & _ & Hnf). rewrite Hps in Hall. apply forallb_fixed_no_tail in Hall. congruence.
+    - rewrite app_nil_r in Hps, Hvs. subst fx vfx.
+      destruct (fixed_params_roundtrip _ _ Hff) as (efx & Hwfx & Lfx & _).
+      destruct (Hbody []) as (pr & Hb). rewrite Hwfx in Hb. cbn [app] in Hb. injection Hb as Hb _. subst body'.
+      rewrite pad_bits_mod16 in Hfill by lia. lia. }
+  destruct (make_canon c vs' fill Hc Hfit Hfill0) as (fx & tail & vfx & K).
+  pose proof (cn_ps _ _ _ _ _ _ K) as Hps. pose proof (cn_vs _ _ _ _ _ _ K) as Hvs.
+  pose proof (cn_fit _ _ _ _ _ _ K) as Hff. pose proof (cn_tail_ok _ _ _ _ _ _ K) as Htok.
+  pose proof (fits_fixed_length _ _ Hff) as Hlfx.
+  exists (body' ++ zeros fill). split; [reflexivity|]. split; [exact Hprops|].
+  split; [rewrite app_length, length_zeros; lia|].
+  intros props_d t Hdata.
+  (* descriptors: fewer than 16 fill bits *)
+  assert (Hdesc : match tail with Some (t0, _) => p_type t0 = TDescs -> (fill < 16)%nat | None => True end).
+  { destruct tail as [[t0 tv]|]; [|exact I]. intros Ety. destruct Htok as (Htp & Htf & _).
+    unfold tail_fit in Htf. rewrite Ety in Htf. destruct tv; try discriminate.
+    specialize (Hdf fx t0 vfx ids). rewrite Hpar, Hvs' in Hdf. specialize (Hdf Hps Ety Hvs).
+    destruct (fixed_params_roundtrip _ _ Hff) as (efx & Hwfx & Lfx & _).
+    destruct (read_descs_roundtrip ids Htf) as (ed & Hwd & Ld & _).
+    destruct (Hbody []) as (pr & Hb). rewrite Hps, Hvs in Hb.
+    rewrite write_params_split in Hb by exact Hlfx. rewrite Hwfx in Hb. cbn [bind app write_params] in Hb.
+    unfold write_param in Hb. rewrite Ety in Hb. rewrite Hwd in Hb. cbn [bind] in Hb. injection Hb as Hb _. subst body'.
+    rewrite Hn, app_length, Ld in Hdf. lia. }
+  assert (Hdat : match tail with
+                 | Some (tp, PData b) => forall rest, decode_data (add_props fx vfx props_d) (b ++ rest) = Ok (b, rest)
+                 | _ => True end).
+  { destruct tail as [[t0 tv]|]; [|exact I]. destruct tv; try exact I.
+    destruct Htok as (Htp & Htf & _). unfold tail_fit in Htf.
+    assert (Ety : p_type t0 = TData) by (destruct (p_type t0); try discriminate; reflexivity).
+    apply (Hdata fx t0 vfx b); [rewrite Hpar; exact Hps|exact Ety|rewrite Hvs'; exact Hvs]. }
+  pose proof (decode_canonical c vs' fill fx tail vfx K body' Hbody Hsl Hdesc props_d t Hdat) as Hdec.
+  cbv zeta in Hdec. rewrite <- app_assoc. rewrite Hdec. eexists. split.
+  - f_equal. f_equal. f_equal. rewrite <- (Hap props_d).
+    destruct tail as [[t0 tv]|].
+    + destruct Htok as (Htp & Htf & _). rewrite Hps, Hvs. apply add_props_tail_decoded; assumption.
+    + rewrite Hvs. reflexivity.
+  - unfold sec_matches. cbn [sec_index sec_params sec_nbits sec_values].
+    split; [symmetry; exact Hidx|]. split; [symmetry; exact Hpar|]. split; [symmetry; exact Hn|].
+    rewrite Hvals, Hps, Hvs, map_app.
+    assert (Hlm : length (map p_name fx) = length vfx) by (rewrite map_length; exact Hlfx).
+    rewrite !combine_app_eq by exact Hlm.
+    apply Forall2_app.
+    + clear. induction (combine (map p_name fx) vfx) as [|x l IH]; constructor; [|exact IH].
+      split; [reflexivity|left; reflexivity].
+    + destruct tail as [[t0 tv]|]; [|constructor]. cbn [map combine]. constructor; [|constructor].
+      cbn [fst snd]. split; [reflexivity|]. destruct tv; try (left; reflexivity).
+      right. exists b, fill. split; reflexivity.
 Qed.
 
 End Roundtrip.
